@@ -701,6 +701,12 @@ func (m *c07Machine) render(exit string, add PVM.HostCallArgs) string {
 	}
 	diff, pok := m.memDiff()
 	s := fmt.Sprintf("%s R %s G %d M %s P %s", exit, strings.Join(rs, ","), int64(m.gas), diff, pok)
+	// the guest's buffers are overwritten before the contexts are read: context data must not alias guest memory
+	for _, pg := range m.mem.Pages {
+		for k := range pg.Value {
+			pg.Value[k] = 0xEE
+		}
+	}
 	switch m.c.Kind {
 	case "acc", "dacc":
 		x, y := &add.AccumulateArgs.ResultContextX, &add.AccumulateArgs.ResultContextY
@@ -787,12 +793,22 @@ func RunC07(f []string) string {
 			}
 		}
 	}
+	exit, add := m.exec()
+	if exit == "" {
+		return "BADCASE"
+	}
+	return m.render(exit, add)
+}
+
+// exec performs the call of the case on the machine
+func (m *c07Machine) exec() (string, PVM.HostCallArgs) {
+	c := m.c
 	switch c.Kind {
 	case "acc", "ref", "auth":
 		op := PVM.OperationType(h.U(c.ID))
 		omega := PVM.VerifC07Omega(m.table(), op, m.gas)
 		out := omega(m.input(op))
-		return m.render(exitName(out.ExitReason), out.Addition)
+		return exitName(out.ExitReason), out.Addition
 	case "dacc", "dref", "dauth":
 		prog := c07Program(h.UnHex(c.ID))
 		add := m.add
@@ -801,9 +817,39 @@ func RunC07(f []string) string {
 		res := host.HostCall(0, 0)
 		m.regs = *res.VM.Registers
 		m.gas = *res.VM.Gas
-		return m.render(exitName(res.ExitReason), res.Addition)
+		return exitName(res.ExitReason), res.Addition
 	}
-	return "BADCASE"
+	return "", PVM.HostCallArgs{}
+}
+
+// outcome class of a finished call, for the distribution statistics of the generator
+func (m *c07Machine) outcome(exit string) string {
+	if exit != "continue" {
+		return exit
+	}
+	switch m.regs[7] {
+	case PVM.OK:
+		return "ok"
+	case PVM.NONE:
+		return "none"
+	case PVM.WHAT:
+		return "what"
+	case PVM.OOB:
+		return "oob"
+	case PVM.WHO:
+		return "who"
+	case PVM.FULL:
+		return "full"
+	case PVM.CORE:
+		return "core"
+	case PVM.CASH:
+		return "cash"
+	case PVM.LOW:
+		return "low"
+	case PVM.HUH:
+		return "huh"
+	}
+	return "value"
 }
 
 func C07Blake(b []byte) [32]byte { return Blake2b(b) }
